@@ -39,6 +39,8 @@ func c01(c *Ctx) {
 	c06R4(c, "R7/C06.R4")
 	sLockDiscipline(c, "R8/S-LOCK", "Raft", "raftState")
 	sAtomicOnly(c, "R8/S-ATOMIC")
+	sMainOwned(c, "R9/S-OWNER", "leaderState", "configurations")
+	sAsyncNotifyBuffered(c, "R9/S-ASYNC")
 }
 
 // incrementsOf collects the "+1" instructions that feed a counter value
